@@ -147,6 +147,8 @@ OBSERVERS = {
     'layout': lambda m: [[(n, a.atomic_number, a.isotope, a.charge, a.is_radical, a.implicit_hydrogens, round(a.x, 4), round(a.y, 4),
                            list(m._bonds[n])) for n, a in m.atoms()],
                          [(n, k, b.order, b.stereo, bool(b.in_ring)) for n, k, b in m.bonds()], m.name],
+    'mass': lambda m: [round(m.molecular_mass, 8), sorted(m.brutto.items()), m.molecular_charge, m.is_radical,
+                       [(n, round(a.atomic_mass, 8), a.isotope) for n, a in m.atoms()]],
     'automorphism': lambda m: [sorted(x.items()) for _, x in zip(range(5), m.get_automorphism_mapping())],
     'self_sub': lambda m: (lambda q: None if q is None else [sorted(x.items()) for _, x in zip(range(20), q.get_mapping(m))])(_sub_query(m)),
     'self_sub_all': lambda m: (lambda q: None if q is None else [sorted(x.items()) for _, x in zip(range(20), q.get_mapping(m, automorphism_filter=False))])(_sub_query(m)),
